@@ -454,6 +454,8 @@ def forward_taint(body, seed_locals=(), seed_place_pred=None, through_calls=True
                         ty = body.place_ty(p)
                         if ty.k == "ref" and ty.d.get("mut"):
                             r = root_place(body, p)
+                            if mut_args == "locals" and 1 <= r["l"] <= body.arg_count:
+                                continue
                             for l2 in (p["l"], r["l"]):
                                 if l2 not in tainted:
                                     tainted.add(l2)
